@@ -410,9 +410,19 @@ pub fn c06_worker(ctx: &mut Ctx) {
             break;
         }
         let mut rng = ctx.rng("mixed", i);
-        let case = match gen_checked(ctx, &mut rng, false) {
-            Some(c) => c,
-            None => continue,
+        let case = if i % 500 < 10 {
+            // the constructed configurations (shared edges with contours directly above them, in both operand orders)
+            ctx.cnt("family:S-constructed", 1);
+            let mut c = c02_constructed(i % 500);
+            if (i / 500) % 2 == 1 {
+                std::mem::swap(&mut c.a, &mut c.b);
+            }
+            c
+        } else {
+            match gen_checked(ctx, &mut rng, false) {
+                Some(c) => c,
+                None => continue,
+            }
         };
         ctx.begin("mixed", i, "");
         ctx.evaluations += 1;
